@@ -2446,3 +2446,167 @@ func r5C03b(c *Ctx) {
 	c.Ob("R3.10", "removeBatchRelease#gone-means-not-found", fn.Pos(), n > 0 && bad == "", "no-retry is answered only behind IsNotFound",
 		ifs(bad != "", bad+": a BatchRelease that is still terminating survives the reset; the next release finds it with an equal spec and takes its old 'batch Ready' for its own — routing is written for pods that do not exist")+ifs(n == 0, "no gone-return found"))
 }
+
+// ================================================================ round 5, fourth batch
+
+func init() {
+	extend := func(id string, expl string, extra func(c *Ctx)) {
+		pr := Registry[id]
+		old := pr.Run
+		pr.Run = func(c *Ctx) { old(c); extra(c) }
+		pr.Explanation += " " + expl
+	}
+	imp := func(id, from string, mapping map[string]string, expl string) {
+		extend(id, expl, func(c *Ctx) { importFrom(c, from, mapping) })
+	}
+	extend("C15", "(R15.12) no loop of the custom provider's EnsureRoutes over the referenced objects is left early on a path that can still end in success (a `break` skips the objects listed after the current one).", r5C15c)
+	imp("C06", "C15", map[string]string{"R15.12": "R6.8"}, "(R6.8 = C15 R15.12) after a fault between two per-object writes the retry still visits every object.")
+	extend("C16", "(R16.10) the object-to-Lua conversion descends into lists and maps itself (it has the integer cases the JSON-side DecodeValue lacks); (R16.11) the methods of *lua.LState that can run script code (Call, PCall, CallByParam, DoString, DoFile, ToStringMeta, CallMeta, Resume) are called only inside RunLuaScript, i.e. under its deadline and protected mode, never on the state it hands back.", r5C16)
+	imp("C04", "C09", map[string]string{"R9.2": "R4.8"}, "(R4.8 = C09 R9.2) traffic-routing references are immutable while a release is progressing, so finalising withdraws the routes the release really wrote.")
+	imp("C05", "C09", map[string]string{"R9.2": "R5.13"}, "(R5.13 = C09 R9.2) the same immutability clause for 'every exit path restores what was modified'.")
+	imp("C14", "C09", map[string]string{"R9.2": "R14.9"}, "(R14.9 = C09 R9.2) the canary Ingress the release wrote stays referenced until it has been removed.")
+	imp("C04", "C03", map[string]string{"R3.9": "R4.9"}, "(R4.9 = C03 R3.9) a provider's Finalise cannot report the routes withdrawn without having looked at the routing object.")
+	imp("C10", "C01", map[string]string{"R1.1": "R10.10"}, "(R10.10 = C01 R1.1) UpgradeBatch writes the workload only to move its knob forward: a paused, already-surged blue-green Deployment (the state of a refused supersession) is not resumed by it.")
+	imp("C10", "C06", map[string]string{"R6.7": "R10.11"}, "(R10.11 = C06 R6.7) Initialize's re-entry marker is its last write, so the stable ReplicaSet is pinned before the release can be re-entered.")
+	imp("C18", "C05", map[string]string{"R5.10": "R18.9"}, "(R18.9 = C05 R5.10) a BatchRelease reaches Completed (and drops its finalizer) only after Finalize really released the workload.")
+	imp("C11", "C05", map[string]string{"R5.10": "R11.11"}, "(R11.11 = C05 R5.10) Completed is reported only for a workload that was released or is provably not held.")
+}
+
+func r5C15c(c *Ctx) {
+	p := c.Prog
+	c.Rule("R15.12", "EnsureRoutes leaves none of its per-object loops early on a path to success", 1)
+	fn := p.Func("pkg/trafficrouting/network/customNetworkProvider.customController.EnsureRoutes")
+	if fn == nil {
+		c.Unresolved("R15.12", "customController.EnsureRoutes")
+		return
+	}
+	// success = a return whose error can be nil (constant nil or a variable that may still be nil)
+	succ := func(in ssa.Instruction) bool {
+		ret, ok := in.(*ssa.Return)
+		if !ok || ret.Block() == fn.Recover || len(ret.Results) == 0 {
+			return false
+		}
+		for _, lf := range Leaves(ret.Results[len(ret.Results)-1], ret.Block()) {
+			if k, ok := lf.V.(*ssa.Const); ok && k.IsNil() {
+				return true
+			}
+		}
+		return false
+	}
+	seenLoop := map[*ssa.BasicBlock]bool{}
+	n := 0
+	bad := ""
+	for _, b := range fn.Blocks {
+		loop := loopBlocks(b)
+		if !loop[b] || seenLoop[b] {
+			continue
+		}
+		for x := range loop {
+			seenLoop[x] = true
+		}
+		n++
+		header := map[*ssa.BasicBlock]bool{}
+		for x := range loop {
+			for _, pr := range x.Preds {
+				if !loop[pr] {
+					header[x] = true
+				}
+			}
+		}
+		for lb := range loop {
+			if header[lb] {
+				continue
+			}
+			for _, sb := range lb.Succs {
+				if loop[sb] {
+					continue
+				}
+				if r, at := CanReach(Point{Block: sb}, succ, ReachOpts{}); r {
+					bad = "the loop is left from " + p.Pos(firstPos(lb)) + " and a successful return (" + p.Pos(at.Pos()) + ") is still reachable"
+				}
+			}
+		}
+	}
+	c.Ob("R15.12", "customController.EnsureRoutes#no-early-loop-exit", fn.Pos(), n > 0 && bad == "", "each per-object loop ends only at its own end or with an error",
+		ifs(bad != "", bad+": the objects listed after the current one are skipped — e.g. their original configuration is never stored once an earlier object carries the annotation, and every later step fails on them")+ifs(n == 0, "no loop found"))
+}
+
+func r5C16(c *Ctx) {
+	p := c.Prog
+	c.Rule("R16.10", "object-to-Lua conversion converts container elements itself", 1)
+	dv := p.Func("pkg/util/luamanager.decodeValue")
+	ex := p.Func("pkg/util/luamanager.DecodeValue")
+	if dv == nil || ex == nil {
+		c.Unresolved("R16.10", "luamanager.decodeValue / DecodeValue")
+	} else {
+		asserted := func(fns []*ssa.Function) map[string]bool {
+			out := map[string]bool{}
+			for _, f := range fns {
+				for _, b := range f.Blocks {
+					for _, in := range b.Instrs {
+						if ta, ok := in.(*ssa.TypeAssert); ok {
+							out[ta.AssertedType.String()] = true
+						}
+					}
+				}
+			}
+			return out
+		}
+		own := asserted([]*ssa.Function{dv})
+		other := asserted([]*ssa.Function{ex})
+		var onlyOwn []string
+		for _, k := range []string{"int", "int32", "int64"} {
+			if own[k] && !other[k] {
+				onlyOwn = append(onlyOwn, k)
+			}
+		}
+		sort.Strings(onlyOwn)
+		bad := ""
+		if len(onlyOwn) > 0 {
+			for _, cont := range []string{"[]interface{}", "map[string]interface{}"} {
+				if !own[cont] && !own[strings.ReplaceAll(cont, "interface{}", "any")] {
+					bad = "decodeValue has no case for " + cont + ": such values fall through to DecodeValue, which has no case for " + strings.Join(onlyOwn, "/")
+				}
+			}
+			// and the element conversion inside its container cases is decodeValue itself
+			for _, ci := range AllCalls(dv) {
+				g := ci.Common().StaticCallee()
+				if g != ex {
+					continue
+				}
+				// a call of DecodeValue whose argument is an element of a container (range value / index) is a descent
+				for x := range BackwardSlice(ci.Common().Args[len(ci.Common().Args)-1]) {
+					switch x.(type) {
+					case *ssa.Next, *ssa.Index, *ssa.IndexAddr, *ssa.Lookup:
+						bad = "container elements are converted by DecodeValue (" + p.Pos(ci.Pos()) + "), which has no case for " + strings.Join(onlyOwn, "/")
+					}
+				}
+			}
+		}
+		c.Ob("R16.10", "luamanager.decodeValue#descends-itself", dv.Pos(), bad == "", "lists and maps of the object are walked by the converter that knows the integer kinds",
+			ifs(bad != "", bad+": integers inside or below that container reach the script as nil (ports, weights, replicas)"))
+	}
+
+	c.Rule("R16.11", "script-running LState methods are called only inside RunLuaScript", 1)
+	running := map[string]bool{"Call": true, "PCall": true, "CallByParam": true, "DoString": true, "DoFile": true, "ToStringMeta": true, "CallMeta": true, "Resume": true}
+	n := 0
+	for _, fn := range p.RepoFuncs() {
+		name := FuncName(fn)
+		inRunner := strings.HasPrefix(name, "pkg/util/luamanager.LuaManager.RunLuaScript")
+		for _, ci := range AllCalls(fn) {
+			g := ci.Common().StaticCallee()
+			if g == nil || g.Signature.Recv() == nil || !strings.HasSuffix(g.Signature.Recv().Type().String(), "gopher-lua.LState") || !running[g.Name()] {
+				continue
+			}
+			n++
+			// library functions registered into the VM run inside the script's own call and are covered by its deadline
+			inLib := strings.HasPrefix(name, "pkg/util/luamanager.") && len(fn.Params) == 1 && strings.HasSuffix(fn.Params[0].Type().String(), "gopher-lua.LState")
+			ok := inRunner || inLib
+			c.Ob("R16.11", shortName(name)+"#"+g.Name(), ci.Pos(), ok, "LState."+g.Name()+" is called under RunLuaScript's deadline and protection",
+				ifs(!ok, "LState."+g.Name()+" can run script code (metamethods); here it is called outside RunLuaScript, on a state that has already been closed and without protected mode: a script-supplied __tostring panics the reconcile worker instead of yielding an error for that one rollout"))
+		}
+	}
+	if n == 0 {
+		c.Unresolved("R16.11", "calls of script-running LState methods")
+	}
+}
